@@ -62,6 +62,7 @@ pub fn fam_a(k: usize, all_arrangements: bool, body: Body) -> Vec<Program> {
 					threads: vec![vec![acq(0, *w1, Flavour::Guard, body)], vec![acq(1, *w2, Flavour::Guard, body)]],
 					policy,
 					name: format!("A{}", k),
+					menu: vec![],
 				});
 			}
 		}
@@ -97,7 +98,7 @@ pub fn fam_b(body: Body, modes: &[(bool, bool)]) -> Vec<Program> {
 						(Some(a), Some(b)) => (Spec::Coll(a, rs(&[0, 1])), Spec::Coll(b, rs(&[1, 0]))),
 						_ => (Spec::Native(Native::NewOW(Kind::Boxed, 0)), Spec::OW(0)),
 					};
-					out.push(Program { specs: vec![s1, s2], threads: vec![vec![acq(0, *w1, f1, body)], vec![acq(1, *w2, f2, body)]], policy, name: "B".into() });
+					out.push(Program { specs: vec![s1, s2], threads: vec![vec![acq(0, *w1, f1, body)], vec![acq(1, *w2, f2, body)]], policy, name: "B".into(), menu: vec![] });
 				}
 			}
 		}
@@ -148,7 +149,7 @@ pub fn fam_c(body: Body, write_only: bool) -> Vec<Program> {
 								}
 							}
 						}
-						out.push(Program { specs, threads, policy, name: "C".into() });
+						out.push(Program { specs, threads, policy, name: "C".into(), menu: vec![] });
 					}
 				}
 			}
@@ -240,7 +241,7 @@ pub fn fam_pairs_of(specs: &[Spec], name: &str, body: Body, flavours: &[Flavour]
 						continue;
 					}
 					for f in flavours {
-						out.push(Program { specs: vec![s1.clone(), s2.clone()], threads: vec![vec![acq(0, w1, *f, body)], vec![acq(1, w2, Flavour::Guard, body)]], policy, name: name.into() });
+						out.push(Program { specs: vec![s1.clone(), s2.clone()], threads: vec![vec![acq(0, w1, *f, body)], vec![acq(1, w2, Flavour::Guard, body)]], policy, name: name.into(), menu: vec![] });
 					}
 				}
 			}
@@ -280,7 +281,7 @@ pub fn fam_d(body: Body) -> Vec<Program> {
 		for i in 0..scripts.len() {
 			for j in i..scripts.len() {
 				let mk = |s: &Vec<(usize, bool, Flavour)>| s.iter().map(|(t, w, f)| acq(*t, *w, *f, body)).collect::<Vec<_>>();
-				out.push(Program { specs: specs.clone(), threads: vec![mk(&scripts[i]), mk(&scripts[j])], policy, name: "D".into() });
+				out.push(Program { specs: specs.clone(), threads: vec![mk(&scripts[i]), mk(&scripts[j])], policy, name: "D".into(), menu: vec![] });
 			}
 		}
 	}
@@ -299,7 +300,7 @@ pub fn fam_e3(body: Body) -> Vec<Program> {
 			for j in i..scripts.len() {
 				for k in j..scripts.len() {
 					let mk = |s: &Vec<(usize, bool)>| s.iter().map(|(t, w)| acq(*t, *w, Flavour::Guard, body)).collect::<Vec<_>>();
-					out.push(Program { specs: specs.clone(), threads: vec![mk(&scripts[i]), mk(&scripts[j]), mk(&scripts[k])], policy, name: "E3".into() });
+					out.push(Program { specs: specs.clone(), threads: vec![mk(&scripts[i]), mk(&scripts[j]), mk(&scripts[k])], policy, name: "E3".into(), menu: vec![] });
 				}
 			}
 		}
@@ -331,7 +332,7 @@ pub fn fam_e4(n: usize, body: Body) -> Vec<Program> {
 						specs.push(Spec::Coll(k, rs(&ix)));
 						threads.push(vec![acq(specs.len() - 1, (writes >> i) & 1 == 1, Flavour::Guard, body)]);
 					}
-					out.push(Program { specs, threads, policy, name: format!("E4-{}", n) });
+					out.push(Program { specs, threads, policy, name: format!("E4-{}", n), menu: vec![] });
 				}
 			}
 		}
@@ -350,6 +351,53 @@ pub fn with_panics(progs: &[Program]) -> Vec<Program> {
 					q.threads[ti][si] = Step::Acq { target: *target, write: *write, flavour: *flavour, body: Body::PANIC };
 					q.name = format!("{}+panic", p.name);
 					out.push(q);
+				}
+			}
+		}
+	}
+	out
+}
+
+/// Family P (C10, concurrent part): one thread panics inside a hold that covers a Poisonable while the
+/// other acquires it by some route / queries / clears concurrently.
+pub fn fam_poison(thorough: bool) -> Vec<Program> {
+	let mut out = vec![];
+	// targets: 0 = the Poisonable itself, 1 = a collection containing it next to a plain leaf, 2 = the plain leaf
+	let mut target_sets: Vec<Vec<Spec>> = vec![];
+	for k in KINDS {
+		target_sets.push(vec![Spec::PR(0), Spec::Coll(k, vec![Spec::R(1), Spec::PR(0)]), Spec::R(1)]);
+		target_sets.push(vec![Spec::Pois(Box::new(Spec::Coll(k, vec![Spec::R(1), Spec::R(0)]))), Spec::Coll(Kind::Boxed, vec![Spec::R(0), Spec::R(1)]), Spec::R(1)]);
+	}
+	target_sets.push(vec![Spec::PM(0), Spec::Coll(Kind::Retry, vec![Spec::PM(0), Spec::M(1)]), Spec::M(1)]);
+	target_sets.push(vec![Spec::PPR, Spec::Coll(Kind::Boxed, vec![Spec::PPR, Spec::R(1)]), Spec::R(1)]);
+	let panic_flavours: Vec<Flavour> = if thorough { FLAVOURS.to_vec() } else { vec![Flavour::Guard, Flavour::ScopedLent, Flavour::ScopedTryOwned] };
+	for specs in &target_sets {
+		let sharable = specs[0].sharable();
+		for pt in [0usize, 1] {
+			// wrapper-of-collection sets: target 1 is a plain collection over the same leaves (no poisonable inside)
+			for pw in [true, false] {
+				if !pw && !sharable {
+					continue;
+				}
+				for pf in &panic_flavours {
+					let t0 = vec![acq(pt, pw, *pf, Body::PANIC), Step::IsPoisoned(0)];
+					let observers: Vec<Vec<Step>> = vec![
+						vec![acq(0, true, Flavour::Guard, Body::TOUCH), Step::IsPoisoned(0)],
+						vec![acq(1, true, Flavour::ScopedLent, Body::TOUCH), Step::IsPoisoned(0)],
+						vec![acq(0, sharable && false, Flavour::Try, Body::TOUCH)].into_iter().filter(|_| true).collect(),
+						vec![Step::ClearPoison(0), acq(0, true, Flavour::Guard, Body::TOUCH)],
+						vec![Step::IsPoisoned(0), acq(2, true, Flavour::Guard, Body::TOUCH), acq(1, true, Flavour::Guard, Body::TOUCH)],
+					];
+					for ob in observers {
+						let ob: Vec<Step> = ob
+							.into_iter()
+							.map(|st| match st {
+								Step::Acq { target, write: false, flavour, body } if !sharable => Step::Acq { target, write: true, flavour, body },
+								other => other,
+							})
+							.collect();
+						out.push(Program { specs: specs.clone(), threads: vec![t0.clone(), ob], policy: Policy::RP, name: "P".into(), menu: vec![] });
+					}
 				}
 			}
 		}
